@@ -206,3 +206,10 @@ pub(super) fn try_parse_hex_integer(source: &str) -> Option<NumericParserResult>
         Err(_) => None,
     }
 }
+
+#[cfg(kani)]
+pub(crate) mod verif {
+    #[allow(clippy::wildcard_imports)]
+    use super::*;
+    include!(concat!(env!("SAS_LEXER_VERIF_DIR"), "/harness/numeric.rs"));
+}
